@@ -90,6 +90,9 @@ class C02(Prop):
     min_evaluations = {"quick": 30_000, "thorough": 300_000}
     budget_s = {"quick": 60, "thorough": 900}
 
+    def worker_pyflags(self, shard):
+        return ["-O"] if shard == 15 else []   # one worker in an optimised interpreter: argument checks must not be assertions
+
     def selftest(self):
         crc_and_frames()
 
